@@ -39,6 +39,9 @@ RULES = {
 }
 
 
+P = "C04."     # rule-id prefix (C10 reuses the rotation rule under its own ids)
+
+
 def run(ck: Checker, prog: Program, tier: str):
     ck.guard(_r1_r3, ck, prog)
     ck.guard(_orientation_carried, ck, prog)
@@ -64,44 +67,44 @@ def _r1_r3(ck: Checker, prog: Program):
     got_ns, got_ew = T.env.get("self.ns.amplitude"), T.env.get("self.ew.amplitude")
     for nm, got, want in (("ns", got_ns, want_ns), ("ew", got_ew, want_ew)):
         if got is not None and got is not (N if nm == "ns" else E) and equal(got, want):
-            ck.ok("C04.R1", fq, f"self.{nm}.amplitude = {want}")
+            ck.ok(P + "R1", fq, f"self.{nm}.amplitude = {want}")
         else:
-            ck.violation("C04.R1", fq, f"self.{nm}.amplitude",
+            ck.violation(P + "R1", fq, f"self.{nm}.amplitude",
                          f"after orienting, the {nm} component is {got}; a clockwise rotation by (target - current orientation) gives {want} "
                          f"(N, E = components before the call)", loc=m.loc())
     if got_ns is not None and got_ew is not None:
         inv = sp.simplify(sp.expand(got_ns ** 2 + got_ew ** 2 - N ** 2 - E ** 2))
         if inv == 0:
-            ck.ok("C04.R3", fq, "ns'^2 + ew'^2 = ns^2 + ew^2", detail="energy preserved for every angle")
+            ck.ok(P + "R3", fq, "ns'^2 + ew'^2 = ns^2 + ew^2", detail="energy preserved for every angle")
         else:
-            ck.violation("C04.R3", fq, "energy", f"ns'^2 + ew'^2 - (ns^2 + ew^2) = {inv}: the transformation is not a rotation", loc=m.loc())
+            ck.violation(P + "R3", fq, "energy", f"ns'^2 + ew'^2 - (ns^2 + ew^2) = {inv}: the transformation is not a rotation", loc=m.loc())
         det = sp.simplify(sp.Matrix([[sp.diff(got_ns, N), sp.diff(got_ns, E)], [sp.diff(got_ew, N), sp.diff(got_ew, E)]]).det())
         if det == 1:
-            ck.ok("C04.R1", fq, "determinant 1 (proper rotation, invertible)")
+            ck.ok(P + "R1", fq, "determinant 1 (proper rotation, invertible)")
         else:
-            ck.violation("C04.R1", fq, "determinant", f"determinant is {det}, expected 1", loc=m.loc())
+            ck.violation(P + "R1", fq, "determinant", f"determinant is {det}, expected 1", loc=m.loc())
     # bookkeeping
     stored = T.env.get("self.degrees_from_north")
     meta_cur = T.env.get("self.meta['current degrees from north']")
     if stored is not None and equal(stored, target) and meta_cur is not None and equal(meta_cur, target):
-        ck.ok("C04.R1", fq, "new orientation recorded (attribute and meta)")
+        ck.ok(P + "R1", fq, "new orientation recorded (attribute and meta)")
     else:
-        ck.violation("C04.R1", fq, "orientation bookkeeping", f"after orienting, degrees_from_north is {stored} and meta is {meta_cur}; expected the target", loc=m.loc())
+        ck.violation(P + "R1", fq, "orientation bookkeeping", f"after orienting, degrees_from_north is {stored} and meta is {meta_cur}; expected the target", loc=m.loc())
     # the update of the stored orientation comes after its use
     uses = [st for st in m.node.body if isinstance(st, ast.Assign) and "self.degrees_from_north" in unparse(st.value)]
     sts = [st for st in m.node.body if isinstance(st, ast.Assign) and unparse(st.targets[0]) == "self.degrees_from_north"]
     if uses and sts and max(u.lineno for u in uses) < min(s.lineno for s in sts):
-        ck.ok("C04.R1", fq, "current orientation read before it is overwritten", nontrivial=False)
+        ck.ok(P + "R1", fq, "current orientation read before it is overwritten", nontrivial=False)
     else:
-        ck.violation("C04.R1", fq, "order of bookkeeping", "the current orientation is overwritten before it is used", loc=m.loc())
+        ck.violation(P + "R1", fq, "order of bookkeeping", "the current orientation is overwritten before it is used", loc=m.loc())
     # vertical untouched (effects)
     s = engine(prog).summary(m)
     vt = [e for e in s.effects if e.origin[0] == "P" and e.origin[1] == 0 and e.origin[2][:1] == ("vt",)]
     other = [e for e in s.effects if e.origin[0] == "P" and e.origin[1] != 0]
     if not vt and not other:
-        ck.ok("C04.R1", fq, "vertical component and arguments are not written", detail=f"{len(s.effects)} effects, all on ns/ew/orientation/meta")
+        ck.ok(P + "R1", fq, "vertical component and arguments are not written", detail=f"{len(s.effects)} effects, all on ns/ew/orientation/meta")
     for e in vt + other:
-        ck.violation("C04.R1", fq, e.site.text, f"orient_sensor_to writes {e.origin}: the vertical must stay untouched", loc=e.site.loc)
+        ck.violation(P + "R1", fq, e.site.text, f"orient_sensor_to writes {e.origin}: the vertical must stay untouched", loc=e.site.loc)
     # constructor normalises the stored orientation into [0, 360)
     init = prog.func("seismic_recording_3c.SeismicRecording3C.__init__")
     st = [x for x in own_nodes(init.node) if isinstance(x, ast.Assign) and unparse(x.targets[0]) == "self.degrees_from_north"]
@@ -110,9 +113,9 @@ def _r1_r3(ck: Checker, prog: Program):
         g = TT.tr(st[0].value)
         d0 = TT.sym("degrees_from_north")
         if equal(g, sp.Function("float")(d0 - 360 * sp.floor(d0 / 360))) or equal(g, d0 - 360 * sp.floor(d0 / 360)):
-            ck.ok("C04.R1", init.qualname, norm_key(st[0]), detail="orientation reduced modulo 360")
+            ck.ok(P + "R1", init.qualname, norm_key(st[0]), detail="orientation reduced modulo 360")
         else:
-            ck.violation("C04.R1", init.qualname, norm_key(st[0]), f"stored orientation is {g}, expected d - 360*floor(d/360)", loc=init.loc(st[0]))
+            ck.violation(P + "R1", init.qualname, norm_key(st[0]), f"stored orientation is {g}, expected d - 360*floor(d/360)", loc=init.loc(st[0]))
 
 
 def _orientation_carried(ck: Checker, prog: Program):
@@ -126,9 +129,9 @@ def _orientation_carried(ck: Checker, prog: Program):
             raise AnalysisError(f"{fq}: constructor call not found")
         dv = kwarg(cs[0], "degrees_from_north")
         if dv is not None and unparse(dv) == f"{srcname}.degrees_from_north":
-            ck.ok("C04.R1", fq, f"degrees_from_north={unparse(dv)}", detail="derived recordings carry the current orientation")
+            ck.ok(P + "R1", fq, f"degrees_from_north={unparse(dv)}", detail="derived recordings carry the current orientation")
         else:
-            ck.violation("C04.R1", fq, norm_key(cs[0], 110),
+            ck.violation(P + "R1", fq, norm_key(cs[0], 110),
                          f"the derived recording is given degrees_from_north={unparse(dv) if dv is not None else '<default 0>'} instead of the source's "
                          f"current orientation: a later orient_sensor_to rotates it by the wrong angle", loc=f.loc(cs[0]))
 
@@ -143,17 +146,17 @@ def _r2(ck: Checker, prog: Program):
     got = T.tr(rets[0].value)
     ns, ew, a = T.sym(f.params[0]), T.sym(f.params[1]), T.sym(f.params[2])
     if f.params[:2] != ["ns", "ew"]:
-        ck.violation("C04.R2", f.qualname, "parameter order", f"parameters are {f.params}; callers pass (ns, ew, azimuth)", loc=f.loc())
+        ck.violation(P + "R2", f.qualname, "parameter order", f"parameters are {f.params}; callers pass (ns, ew, azimuth)", loc=f.loc())
     want = ns * sp.cos(a * sp.pi / 180) + ew * sp.sin(a * sp.pi / 180)
     if equal(got, want):
-        ck.ok("C04.R2", f.qualname, norm_key(rets[0]), detail="ns cos a + ew sin a (a in degrees, clockwise from north)")
+        ck.ok(P + "R2", f.qualname, norm_key(rets[0]), detail="ns cos a + ew sin a (a in degrees, clockwise from north)")
     else:
-        ck.violation("C04.R2", f.qualname, norm_key(rets[0]), f"projection is {got}; the orientation convention requires {want}", loc=f.loc(rets[0]))
+        ck.violation(P + "R2", f.qualname, norm_key(rets[0]), f"projection is {got}; the orientation convention requires {want}", loc=f.loc(rets[0]))
     anti = sp.simplify(sp.expand_trig(got.subs(a, a + 180) + got))
     if anti == 0:
-        ck.ok("C04.R2", f.qualname, "f(a + 180) = -f(a)")
+        ck.ok(P + "R2", f.qualname, "f(a + 180) = -f(a)")
     else:
-        ck.violation("C04.R2", f.qualname, "180-degree periodicity", f"f(a+180) + f(a) = {anti}", loc=f.loc())
+        ck.violation(P + "R2", f.qualname, "180-degree periodicity", f"f(a+180) + f(a) = {anti}", loc=f.loc())
     # callers
     n = 0
     for g in prog.funcs.values():
@@ -167,11 +170,11 @@ def _r2(ck: Checker, prog: Program):
             a0, a1 = unparse(b.get("ns")), unparse(b.get("ew"))
             good = a0.endswith(".ns.amplitude") and a1.endswith(".ew.amplitude") and a0.split(".")[0] == a1.split(".")[0]
             if good:
-                ck.ok("C04.R2", g.qualname, norm_key(c, 110))
+                ck.ok(P + "R2", g.qualname, norm_key(c, 110))
             else:
-                ck.violation("C04.R2", g.qualname, norm_key(c, 110),
+                ck.violation(P + "R2", g.qualname, norm_key(c, 110),
                              f"single_azimuth is called with ns={a0}, ew={a1}: the projection would be taken on the mirrored azimuth", loc=g.loc(c))
-    ck.floor("C04.R2", n, 2, "calls of single_azimuth")
+    ck.floor(P + "R2", n, 2, "calls of single_azimuth")
 
 
 def _settings_reads(prog: Program, qualnames: List[str], pname="settings") -> Set[str]:
@@ -257,9 +260,9 @@ def _r5(ck: Checker, prog: Program):
         rows = T.tr(alloc[0].value.args[0].elts[0])
         good = equal(rows, sp.Function("len")(T.sym("settings.azimuths_in_degrees")) + 1)
     if good:
-        ck.ok("C04.R5", fq, norm_key(alloc[0], 100), detail="len(azimuths) + 1 rows")
+        ck.ok(P + "R5", fq, norm_key(alloc[0], 100), detail="len(azimuths) + 1 rows")
     else:
-        ck.violation("C04.R5", fq, "row allocation", "the per-record spectra array does not have len(azimuths)+1 rows", loc=f.loc())
+        ck.violation(P + "R5", fq, "row allocation", "the per-record spectra array does not have len(azimuths)+1 rows", loc=f.loc())
     inner = [st for st in own_nodes(f.node) if isinstance(st, ast.For) and "azimuths_in_degrees" in unparse(st.iter)]
     if len(inner) != 1:
         raise AnalysisError(f"{fq}: azimuth loop not found")
@@ -272,14 +275,14 @@ def _r5(ck: Checker, prog: Program):
               and unparse(st.targets[0].value) == "raw_spectra_per_record"]
     good = ok_it and len(c) == 1 and len(c[0].args) == 3 and unparse(c[0].args[2]) == az and len(st_row) == 1 and unparse(st_row[0].targets[0].slice) == idx
     if good:
-        ck.ok("C04.R5", fq, norm_key(lp), detail=f"row {idx} = spectrum of the projection on azimuth {az}")
+        ck.ok(P + "R5", fq, norm_key(lp), detail=f"row {idx} = spectrum of the projection on azimuth {az}")
     else:
-        ck.violation("C04.R5", fq, "azimuth rows", "row i of the per-record array is not the spectrum of the projection on azimuth i", loc=f.loc(lp))
+        ck.violation(P + "R5", fq, "azimuth rows", "row i of the per-record array is not the spectrum of the projection on azimuth i", loc=f.loc(lp))
     vrow = [st for st in own_nodes(f.node) if isinstance(st, ast.Assign) and unparse(st.targets[0]) == "raw_spectra_per_record[-1]"]
     if len(vrow) == 1 and unparse(vrow[0].value) == "fft_v":
-        ck.ok("C04.R5", fq, "last row = vertical spectrum", nontrivial=False)
+        ck.ok(P + "R5", fq, "last row = vertical spectrum", nontrivial=False)
     else:
-        ck.violation("C04.R5", fq, "vertical row", "the vertical spectrum is not stored in the last row", loc=f.loc())
+        ck.violation(P + "R5", fq, "vertical row", "the vertical spectrum is not stored in the last row", loc=f.loc())
     pc = calls_in(f.node, "percentile")
     good = False
     if len(pc) == 1:
@@ -292,9 +295,9 @@ def _r5(ck: Checker, prog: Program):
     ratio = [st for st in own_nodes(f.node) if isinstance(st, ast.Assign) and unparse(st.targets[0]) == "hvsr_spectra[hvsr_idx]"]
     good = good and len(ratio) == 1 and unparse(ratio[0].value) == "smooth_h / smooth_v"
     if good:
-        ck.ok("C04.R5", fq, norm_key(pc[0], 110), detail="percentile over axis 0 of the azimuth rows, divided by the vertical row")
+        ck.ok(P + "R5", fq, norm_key(pc[0], 110), detail="percentile over axis 0 of the azimuth rows, divided by the vertical row")
     else:
-        ck.violation("C04.R5", fq, "percentile", "RotDpp is not the configured percentile over axis 0 of the horizontal (azimuth) rows divided by the vertical row",
+        ck.violation(P + "R5", fq, "percentile", "RotDpp is not the configured percentile over axis 0 of the horizontal (azimuth) rows divided by the vertical row",
                      loc=f.loc(pc[0]) if pc else f.loc())
 
 
@@ -308,7 +311,7 @@ def _r6(ck: Checker, prog: Program):
         rec = lp.target.elts[1].id if isinstance(lp.target, ast.Tuple) else lp.target.id
         cs = [c for c in calls_in(lp, "orient_sensor_to")]
         if len(cs) != 1:
-            ck.violation("C04.R6", fq, "orientation step", f"{len(cs)} orient_sensor_to calls per record", loc=f.loc(lp))
+            ck.violation(P + "R6", fq, "orientation step", f"{len(cs)} orient_sensor_to calls per record", loc=f.loc(lp))
             continue
         c = cs[0]
         st = c
@@ -324,8 +327,8 @@ def _r6(ck: Checker, prog: Program):
                     and other.func.attr not in ("is_similar",):
                 first = False
         if ok_g and ok_a and first:
-            ck.ok("C04.R6", fq, norm_key(g), detail="first step on every record; applied iff a target is configured")
+            ck.ok(P + "R6", fq, norm_key(g), detail="first step on every record; applied iff a target is configured")
         else:
-            ck.violation("C04.R6", fq, "orientation step",
+            ck.violation(P + "R6", fq, "orientation step",
                          f"orientation is not the first step, applied exactly when a target is configured (guard ok: {ok_g}, argument ok: {ok_a}, first: {first}); "
                          f"note that a target of 0 degrees is a target", loc=f.loc(c))
